@@ -938,10 +938,10 @@ func (e *emitter) stringLit() string {
 }
 
 func (e *emitter) templateLit() string {
-	pieces := []string{"a", "text", " ", "\n", "'", "\"", "1+1", "{x}", ";"}
+	pieces := []string{"a", "text", " ", "\n", "'", "\"", "1+1", "{x}", ";", " \n", "\n\n", "  \n  b", "\t\n", "${x}", "\n// c\n", "x  "}
 	var sb strings.Builder
 	sb.WriteString("`")
-	n := e.ch.Weighted(1, 4, 3)
+	n := e.ch.Weighted(1, 4, 3, 2, 1)
 	for i := 0; i < n; i++ {
 		sb.WriteString(pieces[e.ch.Choose(len(pieces))])
 	}
